@@ -20,8 +20,11 @@ Oracle (DESIGN.md section 4 / C12):
     ``on_trait_change``, ``observe``), and the value read inside the handler is
     already the value recomputed inside the handler.
 
-A small, separately keyed stratum (``depends_on/...``) runs the same oracle on the
-legacy ``Property(depends_on=...)`` mechanism.
+One history in four uses class flavours whose observed Property is declared in a base
+class while the getter is supplied or overridden (cached <-> uncached) by a subclass that
+does not redeclare the trait (keys ``inherited-getter/...``).  The legacy
+``Property(depends_on=...)`` strata (``depends_on/...``) exist but are switched off in
+``run()``: the statement is about ``observe=`` only.
 """
 import collections
 import copy
@@ -47,9 +50,13 @@ META = {
              "static handlers; a subclass) x 5 dynamic-listener modes x 4 construction styles, ~50 "
              "operation kinds incl. copy switches (pickle 2-5, deepcopy, clone_traits default / deep / "
              "shallow); after every step every tracked object (the live object and up to two earlier "
-             "originals / copies, which are sometimes mutated again) is judged.  One history in 8 runs "
-             "the legacy depends_on mechanism (two more flavours) without multiply reachable elements, "
-             "one in 64 runs it with them (single collapsed key).  distinct_nontrivial counts distinct "
+             "originals / copies, which are sometimes mutated again) is judged.  One history in 4 runs "
+             "on one of 10 further flavours in which the observed Property is declared in a base class "
+             "(with no getter, uncached getters or cached getters) and the getter is supplied / "
+             "overridden (cached over none / uncached, uncached over cached, every property flipped) by "
+             "a subclass that does not redeclare the trait, incl. grand-children (keys prefixed "
+             "inherited-getter/).  The legacy depends_on strata are switched off (outside the "
+             "statement).  distinct_nontrivial counts distinct "
              "(class flavour, listener mode, operation kind, origin of the operated object, set of "
              "dependency kinds whose state changed on it, whether another tracked object was affected, "
              "which recorder mechanisms had to be notified, whether any notification was seen) "
@@ -64,7 +71,14 @@ META = {
                   "handler_reads_checked": 40000, "cached_windows_checked": 250000,
                   "lazy_invalidations": 5000, "copies_made": 1000, "copies_pickle": 500,
                   "copies_deepcopy": 120, "copies_clone": 120, "probe_reads_checked": 20000,
-                  "nontarget_quiet_checks": 100000, "nontarget_affected": 250},
+                  "nontarget_quiet_checks": 100000, "nontarget_affected": 250,
+                  "inherited_getter_reads_checked": 60000,
+                  "inherited_getter_value_changes": 6000,
+                  "inherited_getter_notifications_required": 8000,
+                  "inherited_getter_cached_windows_checked": 50000,
+                  "inherited_getter_copies_made": 250,
+                  "inherited_getter_cache_added_value_changes": 2500,
+                  "inherited_getter_cache_dropped_value_changes": 600},
         "thorough": {"evaluations": 25000000, "reads_checked": 8000000, "relevant_changes": 1000000,
                      "value_changes": 800000, "notifications_required": 1000000,
                      "notifications_required_static": 300000,
@@ -72,7 +86,14 @@ META = {
                      "handler_reads_checked": 1300000, "cached_windows_checked": 8000000,
                      "lazy_invalidations": 160000, "copies_made": 35000, "copies_pickle": 16000,
                      "copies_deepcopy": 4000, "copies_clone": 4000, "probe_reads_checked": 600000,
-                     "nontarget_quiet_checks": 3000000, "nontarget_affected": 8000},
+                     "nontarget_quiet_checks": 3000000, "nontarget_affected": 8000,
+                     "inherited_getter_reads_checked": 2000000,
+                     "inherited_getter_value_changes": 200000,
+                     "inherited_getter_notifications_required": 270000,
+                     "inherited_getter_cached_windows_checked": 1700000,
+                     "inherited_getter_copies_made": 8500,
+                     "inherited_getter_cache_added_value_changes": 85000,
+                     "inherited_getter_cache_dropped_value_changes": 20000},
     },
     "assumptions": [
         "the getters are pure functions of the declared dependencies; the harness recomputes the "
@@ -268,7 +289,17 @@ class Item(HasTraits):
     sub = Instance("Item")
 
 
-def _make_class(name, form, static=(), base=None, extra=None):
+def _make_class(name, form=None, static=(), base=None, extra=None, getters="props"):
+    """Build a module-level HasTraits class.
+
+    base None: declares the dependency traits and the 13 Property(observe=...) traits (expression
+    given in `form`).  With a base: nothing is redeclared; only getters / static handlers /
+    extras are added, so the properties are *inherited* and (when getters are supplied) migrated.
+
+    getters: None = supply no getter here; "props" = cached per the PROPS table; "uncached" =
+    every getter uncached; "flip" = cached exactly where PROPS says uncached.  The class records
+    which properties are cached *as seen on its instances* in `_cached`.
+    """
     ns = {"__module__": __name__, "__qualname__": name}
     if base is None:
         ns.update(
@@ -279,9 +310,14 @@ def _make_class(name, form, static=(), base=None, extra=None):
         meta = "depends_on" if form.startswith("legacy") else "observe"
         for pname, (kinds, cached) in PROPS.items():
             ns[pname] = Property(**{meta: _expression(form, kinds)})
-            g = _make_getter(pname, kinds)
-            ns["_get_" + pname] = cached_property(g) if cached else g
         ns["_probe_changed"] = _probe_changed
+    cached_map = dict(getattr(base, "_cached", {}))
+    if getters is not None:
+        for pname, (kinds, cached) in PROPS.items():
+            c = {"props": cached, "uncached": False, "flip": not cached}[getters]
+            g = _make_getter(pname, kinds)
+            ns["_get_" + pname] = cached_property(g) if c else g
+            cached_map[pname] = c
     for pname in static:
         ns["_%s_changed" % pname] = _make_static(pname)
     if extra:
@@ -289,6 +325,22 @@ def _make_class(name, form, static=(), base=None, extra=None):
     cls = type(HasTraits)(name, (base or HasTraits,), ns)
     cls._static_props = frozenset(static) | getattr(base, "_static_props", frozenset())
     cls._legacy = form.startswith("legacy") if base is None else base._legacy
+    cls._cached = cached_map
+    # properties whose caching was introduced / dropped below the class that declared them
+    prev = getattr(base, "_cached", {}) if base is not None else None
+    added = set(getattr(base, "_cache_added", ()))
+    dropped = set(getattr(base, "_cache_dropped", ()))
+    if prev is not None and getters is not None:
+        for pname, c in cached_map.items():
+            if c and not prev.get(pname, False):
+                added.add(pname)
+                dropped.discard(pname)
+            elif not c and prev.get(pname, False):
+                dropped.add(pname)
+                added.discard(pname)
+    cls._cache_added, cls._cache_dropped = frozenset(added), frozenset(dropped)
+    cls._inherited_getter = base is not None and (getters is not None
+                                                  or getattr(base, "_inherited_getter", False))
     return cls
 
 
@@ -296,9 +348,30 @@ PS = _make_class("PS", "str", static=("cp", "up", "c_l", "c_i", "u_d", "c_ds"))
 PN = _make_class("PN", "strlist")
 PX = _make_class("PX", "expr", static=("cp", "c_b", "c_s"))
 PXL = _make_class("PXL", "exprlist", static=("up", "c_d"))
-PSsub = _make_class("PSsub", None, static=("c_a", "c_d", "u_l"), base=PS, extra={"extra": Int})
+PSsub = _make_class("PSsub", static=("c_a", "c_d", "u_l"), base=PS, extra={"extra": Int},
+                    getters=None)
 PL = _make_class("PL", "legacy", static=("cp", "up", "c_l", "c_i", "u_d"))
 PLN = _make_class("PLN", "legacylist")
+
+# -- the observed Property is declared in a base class, the getter comes from a subclass that
+#    does NOT redeclare the trait (the trait is migrated, the observer state must follow it)
+# interface-like base without any getter (never instantiated) -> subclass supplies the getters
+QA = _make_class("QA", "strlist", static=("cp", "c_l"), getters=None)
+QAc = _make_class("QAc", base=QA, static=("up", "c_d"))
+QAcc = _make_class("QAcc", base=QAc, static=("c_a",), extra={"extra": Int}, getters=None)
+# base with uncached getters everywhere -> subclass overrides with cached ones -> grand-child
+QU = _make_class("QU", "str", static=("cp", "c_i"), getters="uncached")
+QUc = _make_class("QUc", base=QU, static=("c_l", "u_d"))
+QUcc = _make_class("QUcc", base=QUc, extra={"extra": Int}, getters=None)
+# the same over ObserverExpression declarations
+QXA = _make_class("QXA", "expr", getters=None)
+QXAc = _make_class("QXAc", base=QXA, static=("cp", "c_s", "u_l"))
+# reverse: base cached -> subclass overrides with uncached getters -> grand-child cached again;
+# and a subclass that flips every property (cached <-> uncached) at once
+QSu = _make_class("QSu", base=PS, getters="uncached")
+QSuc = _make_class("QSuc", base=QSu, static=("c_a",))
+QNflip = _make_class("QNflip", base=PN, static=("up", "u_i"), getters="flip")
+QNflip2 = _make_class("QNflip2", base=QNflip, extra={"extra": Int}, getters=None)
 
 
 def _mid_a_changed(self):
@@ -310,8 +383,12 @@ def _mid_a_changed(self):
 PM = _make_class("PM", "str", extra={"_a_changed": _mid_a_changed})
 
 SHARED_KEY = "depends_on-shared/element-reachable-twice"
-CLASSES = {"PS": PS, "PN": PN, "PX": PX, "PXL": PXL, "PSsub": PSsub, "PL": PL, "PLN": PLN}
+CLASSES = {c.__name__: c for c in (PS, PN, PX, PXL, PSsub, PL, PLN, QAc, QAcc, QU, QUc, QUcc, QXAc,
+                                   QSu, QSuc, QNflip, QNflip2)}
 OBSERVE_CLASSES = ["PS", "PN", "PX", "PXL", "PSsub"]
+# getter supplied / overridden below the class that declares the Property (own stratum)
+INHERITED_GETTER_CLASSES = ["QAc", "QAcc", "QUc", "QUcc", "QXAc", "QSu", "QSuc", "QNflip",
+                            "QNflip2", "QU"]
 LEGACY_CLASSES = ["PL", "PLN"]
 
 # ---------------------------------------------------------------------------
@@ -404,10 +481,10 @@ def gen_op(rng):
     return op
 
 
-def gen_history(rng, steps, legacy=False, unique=False, collapse=None):
+def gen_history(rng, steps, legacy=False, unique=False, collapse=None, classes=None):
     spec = {
         "unique": unique, "collapse": collapse,
-        "cls": rng.choice(LEGACY_CLASSES if legacy else OBSERVE_CLASSES),
+        "cls": rng.choice(classes or (LEGACY_CLASSES if legacy else OBSERVE_CLASSES)),
         "listen": rng.choice(["none", "otc", "obs", "both", "both"]),
         "dyn": rng.getrandbits(NPROPS) | rng.getrandbits(NPROPS),
         "init": rng.choice(["empty", "kw", "kw", "kw_probe", "kw_probe", "late"]),
@@ -513,9 +590,11 @@ class History:
         self.ops = ops
         self.cls = CLASSES[spec["cls"]]
         self.legacy = self.cls._legacy
+        self.cached = self.cls._cached          # property -> cached getter on this class?
         self.unique = bool(spec.get("unique"))
         self.collapse = spec.get("collapse")
-        self.pfx = "depends_on/" if self.legacy else ""
+        self.inh = self.cls._inherited_getter
+        self.pfx = "depends_on/" if self.legacy else "inherited-getter/" if self.inh else ""
         self.cpfx = ("legacyshared_" if self.collapse else "legacy_") if self.legacy else ""
         self.pool = []
         self.tracked = []
@@ -539,6 +618,8 @@ class History:
 
     def count(self, name, n=1):
         self.sink.count(self.cpfx + name, n)
+        if self.inh:
+            self.sink.count("inherited_getter_" + name, n)
 
     # -- set-up ------------------------------------------------------------
     def track(self, obj, origin):
@@ -559,7 +640,7 @@ class History:
                     mechs.add("obs")
             t.mechs[pname] = mechs
             t.last[pname] = "construct" if origin == "fresh" else "copy"
-            if PROPS[pname][1]:
+            if self.cached[pname]:
                 t.win[pname] = [0, 1]
         self.tracked.append(t)
         if len(self.tracked) > 3:
@@ -838,7 +919,7 @@ class History:
             if read != want:
                 ST.probe[:] = []
                 self.fail("stale-read/%s/%s/in-unrelated-handler/%s"
-                          % ("cached" if PROPS[pname][1] else "uncached",
+                          % ("cached" if self.cached[pname] else "uncached",
                              _diff_kinds(PROPS[pname][0], read, want), where),
                           "property %s read %r inside the static handler of an unrelated trait, "
                           "recomputation gives %r" % (pname, read, want), prop=pname)
@@ -851,7 +932,7 @@ class History:
         for sn, pname, mech, read, want, newarg in ST.log:
             self.sink.ev()
             self.count("handler_reads_checked")
-            cached = "cached" if PROPS[pname][1] else "uncached"
+            cached = "cached" if self.cached[pname] else "uncached"
             if read != want:
                 self.fail("notify/handler-read-stale/%s/%s/%s" % (mech, cached, where),
                           "inside the %s handler for %s the property reads %r, recomputation there "
@@ -868,7 +949,7 @@ class History:
         for i, pname in enumerate(PROP_NAMES):
             if not mask >> i & 1:
                 continue
-            kinds, cached = PROPS[pname]
+            kinds, cached = PROPS[pname][0], self.cached[pname]
             want = _val(post_val, kinds)
             c0 = ST.calls[(t.sn, pname)]
             for _ in range(n):
@@ -971,7 +1052,8 @@ class History:
             elif kinds_changed:
                 other_affected = True
                 self.count("nontarget_affected")
-            for pname, (kinds, cached) in PROPS.items():
+            for pname, (kinds, _c) in PROPS.items():
+                cached = self.cached[pname]
                 fp_changed = any(k in kinds_changed for k in kinds)
                 v0, v1 = _val(val0, kinds), _val(val1, kinds)
                 recs = [r for r in log if r[0] == t.sn and r[1] == pname]
@@ -981,6 +1063,10 @@ class History:
                     t.last[pname] = fam
                 if v0 != v1:
                     self.count("value_changes")
+                    if pname in self.cls._cache_added:
+                        sink.count("inherited_getter_cache_added_value_changes")
+                    elif pname in self.cls._cache_dropped:
+                        sink.count("inherited_getter_cache_dropped_value_changes")
                     if not t.mechs[pname]:
                         self.count("lazy_invalidations")
                     for mech in t.mechs[pname]:
@@ -1159,7 +1245,11 @@ def run(ctx):
         # prototype carried are switched off (a depends_on defect is not a C12 violation).
         legacy = False
         shared = False
-        cid = ("dep:%d" if legacy else "depshared:%d" if shared else "h:%d") % h
+        # every 4th round of histories: the getter is supplied / overridden below the class that
+        # declares the observed Property (balanced over the shards)
+        inherited = (h // ctx.nshards) % 4 == 3
+        cid = ("dep:%d" if legacy else "depshared:%d" if shared else
+               "inh:%d" if inherited else "h:%d") % h
         if not ctx.begin(cid):
             continue
         try:
@@ -1170,6 +1260,8 @@ def run(ctx):
             elif shared:
                 # legacy mechanism with repeated / shared elements: one collapsed key
                 spec, ops = gen_history(rng, steps, legacy=True, collapse=SHARED_KEY)
+            elif inherited:
+                spec, ops = gen_history(rng, steps, classes=INHERITED_GETTER_CLASSES)
             else:
                 spec, ops = gen_history(rng, steps)
             History(sink, spec, ops).run()
